@@ -10,7 +10,7 @@ from . import template, verus
 from .rsrc import AnchorLost, mask
 
 ROOT = os.path.dirname(os.path.dirname(os.path.abspath(__file__)))
-WORK = os.path.join(ROOT, '.work')
+WORK = os.environ.get('VX_WORK') or os.path.join(ROOT, '.work')
 
 
 def unit_path(unit):
